@@ -136,6 +136,22 @@ def run_pdf(cell, rec, seed):
                 orc.slogdet(tq.Sigma)) + np.abs(orc.slogdet(tp.Sigma)))
             rec.close("kl of nearby densities far from the origin", got, ref_far, ns=ns_far,
                       detail=info, mech="kl-value-far-mean")
+        # the second density built around the *same* covariance / precision arrays as the first
+        # (what p.replace(mu=...) or a shared-parameter model hands over), another mean
+        mu_s = tp.mu + gen.vec(rng, R, D, scale=0.7) * np.sqrt(np.max(np.diagonal(
+            tp.Sigma, axis1=1, axis2=2), axis=1))[:, None]
+        cls_ = type(p)
+        q_sh = lc.call(rec, "ctor", lambda: cls_(Sigma=p.Sigma, mu=J(mu_s), Lambda=p.Lambda,
+                                                 ln_det_Sigma=p.ln_det_Sigma), info)
+        if q_sh is not None:
+            got = lc.call(rec, "kl(p, q sharing p's arrays)", lambda: p.kl_divergence(q_sh), info)
+            if got is not None:
+                ref_s = orc.kl(tp.mu, tp.Sigma, mu_s, tp.Sigma)
+                dm_s = np.abs(mu_s) + np.abs(tp.mu)
+                ns_s = 1.0 + D + 0.5 * np.einsum("rd,rde,re->r", dm_s, np.abs(tp.Lambda), dm_s) \
+                    + np.abs(orc.slogdet(tp.Sigma))
+                rec.close("kl of densities sharing their covariance arrays", got, ref_s, ns=ns_s,
+                          detail=info, mech="kl-value-shared-arrays")
         # perturbed copy: strictly positive (sampled 'only if' direction)
         mu2 = tp.mu + 0.3
         p2 = build.lib().pdf.GaussianPDF(Sigma=J(tp.Sigma), mu=J(mu2))
